@@ -202,6 +202,26 @@ carquet_status_t carquet_reader_row_group_matches(
         }
     }
 
+    /* NaN is unordered: a NaN probe, or a NaN stored as min or max (writers
+     * that sort NaN first or last do that), decides nothing */
+    if (type == CARQUET_PHYSICAL_FLOAT) {
+        float probe, lo, hi;
+        memcpy(&probe, value, sizeof(probe));
+        memcpy(&lo, stats.min_value, sizeof(lo));
+        memcpy(&hi, stats.max_value, sizeof(hi));
+        if (probe != probe || lo != lo || hi != hi) {
+            return CARQUET_OK;
+        }
+    } else if (type == CARQUET_PHYSICAL_DOUBLE) {
+        double probe, lo, hi;
+        memcpy(&probe, value, sizeof(probe));
+        memcpy(&lo, stats.min_value, sizeof(lo));
+        memcpy(&hi, stats.max_value, sizeof(hi));
+        if (probe != probe || lo != lo || hi != hi) {
+            return CARQUET_OK;
+        }
+    }
+
     if (cmp_fn) {
         cmp_min = cmp_fn(value, stats.min_value);
         cmp_max = cmp_fn(value, stats.max_value);
